@@ -271,6 +271,28 @@ def rule_redeclared_running_step(ctx):
                 if "_discard_check_if_declared_again" not in calls_[:k]:
                     bad_path = [(e[1], e[2]) for e in tr if e[0] == "test"][-3:]
         ctx.check(bad_path is None, fq_, f"the verdict of the check ({final}) is only applied after asking whether the step was declared again", f"a path (last tests {bad_path}) lets the step off on the hashes of a declaration that was replaced while the check ran", "guarded", where=ctx.where_of(fj))
+    # no window between the question and the verdict: each transaction that applies a verdict asks first, inside it
+    dv = ctx.prog.func("executor.Executor._drop_verdict_if_declared_again")
+    vsrc = re.sub(r"\s+", " ", ast.unparse(dv.node))
+    ctx.check(not isinstance(dv.node, ast.AsyncFunctionDef) and "step.i not in self.workflow.declared_again" in vsrc and "declared_again.discard(step.i)" in vsrc and "step.delete_hash()" in vsrc and "step.set_state(StepState.PENDING)" in vsrc, dv.fq, "the in-transaction question is synchronous: consult, clear, delete the hash, make pending", "the helper awaits (a declaration can arrive in between) or no longer resets the step", "sync helper")
+    for fq_, verdict in (("executor.Executor.execute_job", "mark_completed"), ("executor.Executor.try_skip_job", "mark_completed"), ("executor.Executor.validate_dynamic_job", "set_state")):
+        fj = ctx.prog.func(fq_)
+        bad = None
+        n_v = 0
+        for tr, st in flow.paths_of(fj):
+            ks = [k for k, e in enumerate(tr) if e[0] == "call" and e[1].split(".")[-1] == verdict and (verdict != "set_state" or "StepState.PENDING" in ast.unparse(e[2]))]
+            for k in ks:
+                n_v += 1
+                reg = flow.region_of(tr, k, lambda s_: s_.split(".")[-1] == "db")
+                if reg is None:
+                    bad = "verdict outside a transaction"
+                    continue
+                inside = tr[reg[0]:k]
+                asked = any(e[0] == "call" and e[1].split(".")[-1] == "_drop_verdict_if_declared_again" for e in inside)
+                awaited = any(e[0] == "await" and not e[1].startswith("<a") for e in inside)
+                if not asked or awaited:
+                    bad = f"asked in the same transaction: {asked}, await between: {awaited}"
+        ctx.check(bad is None and n_v > 0, fq_, f"{verdict} is applied in a transaction that first asks whether the step was declared again", f"{bad}: while output hashes are computed in a thread (seconds for a large output) the creator can run again and replace the declaration; the verdict then lands on the new row, with the inputs the command amended cut off", "asked inside the verdict's transaction", where=ctx.where_of(fj))
     names = [callee_name(c) for c in calls_in(rs.node)]
     ctx.check("delete_hash" in names and any(callee_name(c) == "set_state" and c.args and ast.unparse(c.args[0]) == "StepState.PENDING" for c in calls_in(rs.node)) and "mark_completed" not in names, rs.fq, "a replaced declaration ends the run without a verdict: hash deleted, step pending", "the run is completed (or keeps its hash) although the declaration it ran for is gone", "delete_hash + set_state(PENDING)")
     dec = ctx.prog.func("executor.Executor._declaration")
@@ -328,7 +350,7 @@ def rule_pool_initialised(ctx):
 
 
 RULES = [
-    Rule("R-C12-10", "a step declared again while running keeps its row and is run again afterwards", rule_redeclared_running_step, min_instances=15),
+    Rule("R-C12-10", "a step declared again while running keeps its row and is run again afterwards", rule_redeclared_running_step, min_instances=19),
     Rule("R-C12-9", "the resource pool is initialised from the command line", rule_pool_initialised, min_instances=1),
     Rule("R-C12-8", "steps (re)attached inside a hold block are re-examined (hold clause relies on the _safe recomputation)", C10.rule_step_overrides, min_instances=8),
     Rule("R-C12-7", "resource claims are replaced on declaration", rule_claims_replaced, min_instances=7),
@@ -341,6 +363,8 @@ RULES = [
 ]
 
 MUTANTS = [
+    Mutant("verdict-applied-without-asking", "executor.py", in_function("Executor.execute_job", lambda t: t.replace("            if self._drop_verdict_if_declared_again(step):\n                # Declared again while the hashes were computed: what the command wrote is\n                # recorded as after a failure, the verdict is dropped.\n                self.workflow.update_file_hashes(new_out_hashes, cause=HashUpdateCause.FAILED)\n                self.scheduler.record_run_stopped(step.i, succeeded=False)\n                self._report_step_counts()\n                return\n", "", 1) if "Declared again while the hashes were computed" in t else None), ("R-C12-10",)),
+    Mutant("skip-applied-without-asking", "executor.py", in_function("Executor.try_skip_job", replace_once("            if self._drop_verdict_if_declared_again(step):\n                self._report_step_counts()\n                return\n", "")), ("R-C12-10",)),
     Mutant("amended-outputs-of-replaced-command-forgotten", "executor.py", in_function("Executor._restart_if_declared_again", replace_once("            paths.update(record.path for record in run.step.out_paths(raw=True))\n", "")), ("R-C12-10",)),
     Mutant("checked-step-let-off-after-redeclaration", "executor.py", in_function("Executor.try_skip_job", replace_once("        if await self._discard_check_if_declared_again(step):\n            return\n", "")), ("R-C12-10",)),
     Mutant("checking-row-reset-by-redeclaration", "step.py", in_function("Step.initialize_row", lambda t: t.replace("        still_running = old_row is not None and old_row[0] in (\n            StepState.RUNNING.value,\n            StepState.CHECKING.value,\n        )\n", "        still_running = old_row is not None and old_row[0] == StepState.RUNNING.value\n", 1) if "StepState.CHECKING.value,\n        )" in t else None), ("R-C12-10",)),
